@@ -23,6 +23,11 @@ def meta(path):
 def run_one(path, expect_violation):
     m = meta(path)
     props = m.get("property", "").split()
+    mj = os.path.join(os.path.dirname(path), "meta.json")
+    if os.path.exists(mj):
+        props = json.load(open(mj))["property"].split()
+        if os.path.exists(os.path.join(os.path.dirname(path), "check_with.txt")):
+            props = open(os.path.join(os.path.dirname(path), "check_with.txt")).read().split()
     tmp = tempfile.mkdtemp(prefix="govc-selftest-")
     try:
         dst = os.path.join(tmp, "repo")
@@ -61,10 +66,16 @@ def main():
             if sel and not any(s in f for s in sel):
                 continue
             jobs.append((os.path.join(d, f), expect))
+    sd = os.path.join(VERIF, "seeded")
+    if os.path.isdir(sd):
+        for name in sorted(os.listdir(sd)):
+            pth = os.path.join(sd, name, "patch.diff")
+            if os.path.exists(pth) and (not sel or any(s in "seeded/" + name for s in sel)):
+                jobs.append((pth, True))
     bad = 0
     with concurrent.futures.ThreadPoolExecutor(max_workers=3) as ex:
         for path, status, info in ex.map(lambda j: run_one(*j), jobs):
-            print("%-5s %-60s %s" % (status, os.path.relpath(path, HERE), info))
+            print("%-5s %-60s %s" % (status, os.path.relpath(path, VERIF), info))
             if status == "FAIL":
                 bad += 1
     print("selftest: %d cases, %d failed" % (len(jobs), bad))
